@@ -252,7 +252,7 @@ def store_oracle(h, meta, lines, tags, impl, model, want):
             if dumped != truth:
                 yield ("the per-file counters differ from ground truth recomputed from the data files and the index", li, truth, dumped, None)
                 return
-        if line == "files" and "sizes" in want and li >= 2 and lines[li - 1] == "hazard" and lines[li - 2] == "merge" and lines[li - 3] == "files":
+        if line == "files" and "sizes" in want and li >= 3 and lines[li - 1] == "hazard" and lines[li - 2] == "merge" and lines[li - 3] == "files":
             after, before = sizes(a), sizes(impl[li - 3])
             if after > before:
                 yield ("a merge increased the total size of the data files", li, f"<= {before}", str(after), None)
@@ -260,7 +260,23 @@ def store_oracle(h, meta, lines, tags, impl, model, want):
             sel = re.search(r"sel=(\S+)", impl[li - 2])
             if sel:
                 selected = set() if sel.group(1) == "-" else set(int(x) for x in sel.group(1).split(","))
-                nonempty = set(int(m.group(1)) for m in re.finditer(r"d(\d+)=(\d+)", impl[li - 3]) if int(m.group(2)) > 0)
+                fsz = {int(m.group(1)): int(m.group(2)) for m in re.finditer(r"d(\d+)=(\d+)", impl[li - 3])}
+                nonempty = set(f for f, n in fsz.items() if n > 0)
+                # eligibility per the documented thresholds, from ground-truth counters (harness' own scan), not the store's
+                if li >= 4 and lines[li - 4] == "truth" and impl[li - 4].startswith("stats "):
+                    cm = re.search(r"frag=(\d+)/(\d+) dead=(\d+) small=(\d+)", h.cfg)
+                    fn, fd, dth, sth = (int(x) for x in cm.groups())
+                    eligible = set()
+                    t = impl[li - 4][6:]
+                    for part in ([] if t == "-" else t.split(",")):
+                        f, v = part.split("=")
+                        l, d, b = (int(x) for x in v.split(":"))
+                        if b > dth or (d > 0 and d * fd > fn * (d + l)) or fsz.get(int(f), 0) < sth:
+                            eligible.add(int(f))
+                    if nonempty and nonempty <= eligible and not nonempty <= selected:
+                        yield ("every non-empty data file is eligible by the configured thresholds, yet the merge left some unmerged: " + str(sorted(nonempty - selected)), li,
+                               "sel >= " + str(sorted(nonempty)), sel.group(1), None)
+                        return
                 if nonempty <= selected:
                     live = sum(25 + len(k) + len(v) for k, v in sm.m.items())
                     if after != live:
@@ -485,9 +501,9 @@ def run_c13(rep, tier, seed):
         ops = []
         for op in h.ops:
             if op[0] == "merge":
-                ops += [("files",), op]
+                ops += [("truth",), ("files",), op]
                 if rng.random() < 0.4:
-                    ops += [("files",), ("merge",)]
+                    ops += [("truth",), ("files",), ("merge",)]
             else:
                 ops.append(op)
         h.ops = ops
